@@ -704,7 +704,10 @@ def rule_A4(ctx):
                         problems.append((cs.node, f"calls {cn[0]} on it, which changes its receiver ({sorted(eff)[0][2]})"))
             public = not f.name.startswith('_') or (f.name.startswith('__') and f.name.endswith('__'))
             if public and f.name != '_create_from_bitstype':
-                only_view = all(b[0] == 'view' for b in loc[v])
+                top_views = [x for x in f.node.body if isinstance(x, ast.Assign) and len(x.targets) == 1 and isinstance(x.targets[0], ast.Name)
+                             and x.targets[0].id == v and isinstance(x.value, ast.Call) and isinstance(x.value.func, ast.Attribute)
+                             and x.value.func.attr == '_create_from_bitstype']
+                only_view = all(b[0] == 'view' or (b[0] == 'param' and top_views) for b in loc[v])
                 for x in own_walk(f.node):
                     if isinstance(x, ast.Return) and isinstance(x.value, ast.Name) and x.value.id == v and only_view:
                         problems.append((x, 'returns the promoted operand itself (it may be the caller\'s own object or wrap the cache)'))
@@ -749,4 +752,79 @@ def rule_A9(ctx):
                            'Array and the caller) then share one buffer', loc=f.loc(x))
     if n < 6:
         raise AnalysisError(f'only {n} Array.data installs found (floor 6)')
+    return r
+
+
+def rule_A10(ctx):
+    """A local object that is mutated in place must hold a fresh store (private temporaries really are private)."""
+    m = ctx.m
+    O = Ownership(ctx)
+    E = O.E
+    r = RuleResult('A10', 'in-place effects on local temporaries: the temporary owns a fresh store')
+
+    def obj_fresh(node, depth=0):
+        """Does the function return an object whose store is freshly built (all installs on the returned local FRESH)?"""
+        f = m.funcs[node[0]]
+        loc = E.locals(node)
+        rets = [x.value for x in own_walk(f.node) if isinstance(x, ast.Return) and x.value is not None]
+        if not rets:
+            return False
+        for v in rets:
+            if not isinstance(v, ast.Name):
+                return False
+            if v.id in ('self',) or ('self',) in loc.get(v.id, ()):
+                return False
+            installs = [d for d in E.direct(node) if d.kind == 'install' and d.root == v.id]
+            if not installs:
+                return False
+            for d in installs:
+                if any(p[0] != 'FRESH' for p in O.prov(d.value, node)):
+                    return False
+        return True
+
+    n = 0
+    for node in sorted(O.live, key=str):
+        f = m.funcs[node[0]]
+        if f.cls not in FAMILY:
+            continue
+        edges, selfname = E.edges(node)
+        loc = E.locals(node)
+        mutated = {}
+        for d in E.direct(node):
+            if d.kind == 'inplace' and d.root != selfname:
+                mutated.setdefault(d.root, d.node)
+        for (cn, root, cs) in edges:
+            if root is not None and root != selfname and E.selfeff(cn):
+                mutated.setdefault(root, cs.node)
+        for x, site in mutated.items():
+            binds = loc.get(x, set())
+            for b in binds:
+                if b[0] != 'alloc':
+                    continue
+                n += 1
+                ok = True
+                why = ''
+                if b[2] == 'copy':
+                    # find the call that produced it
+                    for y in own_walk(f.node):
+                        if isinstance(y, (ast.Assign, ast.NamedExpr)):
+                            tg = y.targets[0] if isinstance(y, ast.Assign) else y.target
+                            vals = [y.value.body, y.value.orelse] if isinstance(y.value, ast.IfExp) else [y.value]
+                            if isinstance(tg, ast.Name) and tg.id == x:
+                                for v in vals:
+                                    for cs in ctx.fa(node).calls:
+                                        if cs.node is v:
+                                            for (g, c) in cs.targets:
+                                                if g.name in ('__new__', '__init__'):
+                                                    continue
+                                                if not obj_fresh(ctx.node(g, c)):
+                                                    ok = False
+                                                    why = f"{g.key} does not return an object with a freshly built store"
+                if ok:
+                    r.ok(f'{f.key}:{x}')
+                else:
+                    r.fail(f.key, f'{x} mutated: {norm(site)}', f"'{x}' is treated as a private temporary and mutated in place, but {why}: "
+                           'the mutation reaches the original object (or the cache)', loc=f.loc(site))
+    if n < 10:
+        raise AnalysisError(f'only {n} mutated temporaries found (floor 10)')
     return r
